@@ -608,6 +608,9 @@ class TaskScenario(ScenarioData):
 
                     end_date = latest_end
 
+                # A milestone happens AT its deadline, not in the last working slot before it
+                self._backwardDeadline = end_date
+
                 if end_date:
                     # For ALAP, start from the last working slot BEFORE the end date
                     self.currentSlotIdx = self.project.dateToIdx(end_date) - 1
@@ -771,7 +774,7 @@ class TaskScenario(ScenarioData):
                     self.property[("start", self.scenarioIdx)] = end_date
                 else:
                     slot_idx = self.currentSlotIdx if self.currentSlotIdx is not None else 0
-                    date = self.project.idxToDate(slot_idx)
+                    date = getattr(self, "_backwardDeadline", None) or self.project.idxToDate(slot_idx)
                     self.property[("start", self.scenarioIdx)] = date
                     self.property[("end", self.scenarioIdx)] = date
             return False
